@@ -50,6 +50,13 @@ def run(ctx):
         if "get_mapping" in ctx.methods(cls):
             with res.guard(f"E-PURE / E-CACHE of {cls}.get_mapping"):
                 check_pure(ctx, eff, res, f"{cls}.get_mapping", roots=("self",))
+    # the degree / Laplacian matrices are read off the incidence lists: a copy that shares them with its original makes an edit
+    # of one hypergraph change the matrices of the other
+    with res.guard("E-FRESHCOPY of Hypergraph.copy"):
+        from ..effects import check_deepcopy
+
+        res.rules["E-FRESHCOPY"] = "copy() shares no incidence list / table with the original (the per-order degree matrices are computed from them)"
+        check_deepcopy(ctx, res, "Hypergraph.copy")
     with res.guard("E-PURE of linalg.binary_incidence_matrix"):
         bi = ctx.require("linalg.binary_incidence_matrix")
         check_pure(ctx, eff, res, "linalg.binary_incidence_matrix", roots=(bi.params[0].arg,))
